@@ -35,7 +35,7 @@ _counters = {"schedules": 0, "cap_hits": 0, "tsan_runs": 0}
 
 
 def budget(tier):
-    return 400 if tier == "quick" else 10000
+    return 3000 if tier == "quick" else 60000
 
 
 def sched_cap(tier):
